@@ -70,7 +70,49 @@ def block(s):
     return f"(if {cond(m.group(1))} then {block(then)} else {block(els)})"
 
 
-def gen(src):
+def gen_send(msrc):
+    """`Sender::send` of sync/prunable_mpsc/mod.rs: filter guard, `retain` with a mutable `keep` flag, conditional push."""
+    i = msrc.index("impl<T> Sender<T>")
+    sig, body = _fn_body(msrc[i:msrc.index("impl<T> fmt::Debug for Sender<T>")], "send")
+    m = re.fullmatch(r"if !\(self\.filter_predicate\)\(&value\) \{ return; \} self\.shared\.send\.send_modify\(\|buf\| \{ "
+                     r"let mut keep = (true|false); buf\.retain\(\|x\| match \(self\.selection_function\)\(x, &value\) \{ (.*) \}\); "
+                     r"if keep \{ buf\.push_back\(value\); \} \}\);", body)
+    if not m:
+        raise TErr(f"Sender::send: body shape not recognised: {body!r}")
+    arms_src = m.group(2)
+    arms = {}
+    for a in re.finditer(r"SelectionFunctionResult::(\w+) => (true|false|\{ keep = (true|false); (true|false) \}),?", arms_src):
+        if a.group(3):
+            arms[a.group(1)] = (a.group(4), a.group(3))
+        else:
+            arms[a.group(1)] = (a.group(2), None)
+    rest = re.sub(r"SelectionFunctionResult::(\w+) => (true|false|\{ keep = (true|false); (true|false) \}),?", "", arms_src).strip()
+    if rest or set(arms) != {"Keep", "DiscardOld", "DiscardNew"}:
+        raise TErr(f"Sender::send: match arms not recognised: {arms_src!r}")
+
+    def arm(v):
+        retain, ks = arms[v]
+        acc = "st.1 ++ [x]" if retain == "true" else "st.1"
+        keep = "st.2" if ks is None else ks
+        return f"    | R.{v} => ({acc}, {keep})"
+    return f"""
+/-- one visit of the `retain` closure of `Sender::send`: (retained so far, `keep`) -/
+def retainStep {{α : Type}} (selection_function : α → α → R) (value : α) (st : List α × Bool) (x : α) : List α × Bool :=
+    match selection_function x value with
+{arm("Keep")}
+{arm("DiscardOld")}
+{arm("DiscardNew")}
+
+/-- `Sender::send` (sync/prunable_mpsc/mod.rs) on the buffer. Source: `{body}`
+(`VecDeque::retain` visits the elements front to back and keeps their order) -/
+def send {{α : Type}} (filter_predicate : α → Bool) (selection_function : α → α → R) (buf : List α) (value : α) : List α :=
+  if !(filter_predicate value) then buf else
+  let st := buf.foldl (retainStep selection_function value) ([], {m.group(1)})
+  if st.2 then st.1 ++ [value] else st.1
+"""
+
+
+def gen(src, msrc):
     sig, body = _fn_body(src, "inbound_selection_function")
     if "old_req: &FromNetworkMessage, new_req: &FromNetworkMessage" not in sig.replace(",)", ")").replace(", )", ")"):
         raise TErr(f"inbound_selection_function: signature {sig!r}")
@@ -105,6 +147,6 @@ def inbound_selection_function (old_req new_req : Req) : R := {sel}
 
 /-- `inbound_filter_predicate`. Source: `{body2}` -/
 def inbound_filter_predicate (new_req : Req) : Bool := new_req.verify_ok
-
+{gen_send(msrc)}
 end EraVerif.Gen.QueueFns
 '''
